@@ -147,7 +147,7 @@ func idiom(r *lib.Rng) (*Program, string) {
 // the twin, the rest state, the store at failure and the error-reported rule only.
 func rawFamily(r *lib.Rng) ([]string, string) {
 	n := 2 + r.Intn(3)
-	switch r.Intn(12) {
+	switch r.Intn(15) {
 	case 0:
 		return []string{"(def y 0) (defn lz [#a b] (set y (+ y b)) (+ (force #a) b))", "(def x (lz (failk 1) (failk 2)))", "(lz (+ 1 (failk 5)) (failk 7))"}, "lazy-force"
 	case 1:
@@ -170,6 +170,17 @@ func rawFamily(r *lib.Rng) ([]string, string) {
 		return []string{"(def h (hash a:1 b:2)) (def y 0)", "(range k v h (set y (+ y (failk v))))", "(def x (hget h (quote a)))"}, "range-macro"
 	case 10:
 		return []string{"(def y 0) (defn f [n] (cond (== n 0) (eval (quote (failk 0))) (begin (set y (+ y 1)) (+ 1 (f (- n 1))))))", fmt.Sprintf("(def x (f %d))", n)}, "eval-at-depth"
+	case 12: // builtins that evaluate a key / index FORM and have a default to fall back on: the error of the
+		// nested evaluation is the result, not the default
+		return []string{"(def h (hash a:1 b:2)) (def y 0) (defn k [] (set y (+ y 1)) (failk (quote a)))",
+			"(def x (hget h (quote (k)) 77)) (set y (+ y 10))", "(def x (hget h (quote (failk (quote zz))) 78)) (set y (+ y 10))",
+			"(list (hget h (quote (k))) (hget h (quote b) 5) (hget h (quote (failk (quote b))) 6))"}, "hget-default-key-eval"
+	case 13:
+		return []string{"(def y [10 20 30]) (def x 0)", "(def x (aget y (quote (failk 1)) 99)) (set x (+ x 1))",
+			"(list (aget y (quote (+ (failk 5) (failk 1))) 98) (aget y 7 97))"}, "aget-default-index-eval"
+	case 14:
+		return []string{"(def h (hash a:1 b:2)) (def y 0)", "(hdel h (quote (failk (quote a)))) (set y 1)",
+			"(def x (list (:a h 70) (:zq h 71) (hget h (quote (failk (quote a))) 72)))", "(hset h (quote (failk (quote c))) (failk 3)) (set y 2)"}, "hdel-colon-default"
 	default:
 		return []string{"(def y (list 1 2 3)) (def x 0)", "(def x (apply + (map (fn [a] (failk a)) y)))", "(def f (fn [& r] (map (fn [a] (failk a)) r))) (f 1 2)"}, "apply-map-list"
 	}
@@ -218,7 +229,7 @@ func specFamily(r *lib.Rng) ([]specText, string) {
 	eff := func(e *Node) *Node { return Begin(Set("y", plus(Var("y"), Int(100))), e) }
 	effSrc := func(e string) string { return "(begin (set y (+ y 100)) " + e + ")" }
 	forms := func(fs ...*Node) []*Node { return fs }
-	switch r.Intn(9) {
+	switch r.Intn(12) {
 	case 0: // the thunk is stored in a global, its force fails inside the call, it is forced again later
 		return []specText{
 			{src: "(def kp nil) (def y 0) (defn lz [#a] (set kp #a) (let [v (+ 1 (force #a))] (set y v) v))",
@@ -281,6 +292,38 @@ func specFamily(r *lib.Rng) ([]specText, string) {
 			{src: macroRedefs[i], rej: true},
 			{src: "(m9 (failk 1))", forms: forms(CallN("m9", failk(Int(1))))},
 		}, "macro-redefinition-then-failed"
+	case 9: // a macro call site that is compiled at run time (an argument of a call in a function body) and
+		// executed again after its expansion failed once: it must be expanded again, not remembered as nil
+		return []specText{
+			{src: "(def y 0) (defmac mx [a] (failk 0) ^(+ ~a 10)) (defn f [b] (list b (mx b)))",
+				forms: forms(Def("y", Int(0)), Defn("mx", []string{"a"}, "", failk(Int(0)), plus(Var("a"), Int(10))),
+					Defn("f", []string{"b"}, "", CallN("list", Var("b"), CallN("mx", Var("b")))))},
+			{src: fmt.Sprintf("(def x (f %d))", n), forms: forms(Def("x", CallN("f", Int(n))))},
+			{src: "(f (failk 6))", forms: forms(CallN("f", failk(Int(6))))},
+			{src: "(list (f 1) (f 2))", forms: forms(CallN("list", CallN("f", Int(1)), CallN("f", Int(2))))},
+		}, "macro-site-expansion-fails-once"
+	case 10: // the same call site inside a loop inside a function
+		loop := func() *Node {
+			return For("", Def("i", Int(0)), CallN("<", Var("i"), Var("n")), inc("i"), Set("y", plus(Var("y"), CallN("mx", Var("i")))))
+		}
+		return []specText{
+			{src: "(def y 0) (defmac mx [a] (failk 0) ^(+ ~a 10)) (defn f [n] (for [(def i 0) (< i n) (set i (+ i 1))] (set y (+ y (mx i)))) y)",
+				forms: forms(Def("y", Int(0)), Defn("mx", []string{"a"}, "", failk(Int(0)), plus(Var("a"), Int(10))),
+					Defn("f", []string{"n"}, "", loop(), Var("y")))},
+			{src: "(f 2)", forms: forms(CallN("f", Int(2)))},
+			{src: "(def x (f 3))", forms: forms(Def("x", CallN("f", Int(3))))},
+			{src: "(f 1)", forms: forms(CallN("f", Int(1)))},
+		}, "macro-site-in-loop"
+	case 11: // the expansion fails because of the global state at that moment, and works once the state changed
+		mg := Defn("mg", []string{"a"}, "", Cond(CallN(">", Var("y"), Int(0)), plus(Var("a"), Int(1)), CallN("first", Int(5))))
+		return []specText{
+			{src: "(def y 0) (defmac mg [a] (cond (> y 0) ^(+ ~a 1) (first 5))) (defn f [b] (list b (mg b)))",
+				forms: forms(Def("y", Int(0)), mg, Defn("f", []string{"b"}, "", CallN("list", Var("b"), CallN("mg", Var("b")))))},
+			{src: "(f 1)", forms: forms(CallN("f", Int(1)))},
+			{src: "(set y (failk 1))", forms: forms(Set("y", failk(Int(1))))},
+			{src: "(f (failk 1))", forms: forms(CallN("f", failk(Int(1))))},
+			{src: "(def x (f 2))", forms: forms(Def("x", CallN("f", Int(2))))},
+		}, "macro-expansion-depends-on-state"
 	default: // a first definition that fails, then the real one; and a failing use at expansion time in between
 		return []specText{
 			{src: "(defmac bad9 [a] (first 5))", forms: forms(Nil())},
@@ -367,6 +410,27 @@ var interludes = []string{
 	"(source \"" + midTextFile + "\")",
 }
 
+// apiFailures: effect-free texts that fail at RUN time (not at parse / compile time), of different code
+// lengths, given to the Go API entry points at rest (interp.go:evalVia): error reported, at rest
+// (pc at the end of __main), nothing of it visible afterwards.
+var apiFailures = []string{
+	"(first 5)",
+	"(+ 1 c05nosuch)",
+	"(begin 1 2 3 4 5 6 7 8 9 10 11 12 (first 5))",
+	"((fn [a] (let [b a] (aget b 9))) [1 2])",
+	"(for [(def i9 0) (< i9 3) (set i9 (+ i9 1))] (cond (== i9 2) (first 5) nil))",
+	"(let [a 1] (newScope (map (fn [e] (first e)) [1 2])))",
+}
+
+func apiFailureText(r *lib.Rng) Text {
+	via := viaNames[r.Intn(len(viaNames))]
+	body := apiFailures[r.Intn(len(apiFailures))]
+	if via == "apply" {
+		body = "(fn [] " + body + ")"
+	}
+	return Text{Src: "//via:" + via + "\n" + body, Prefix: noopErr, Role: "interlude"}
+}
+
 // midTextFile is written by every process of the harness (same content): a text with a stray
 // closer in the middle, for the source route.
 const midTextFile = "/tmp/c05-src-midtext.zy"
@@ -387,7 +451,7 @@ func isRejectedText(src string) bool {
 			return true
 		}
 	}
-	return strings.HasPrefix(src, "(def zz1 5)")
+	return strings.HasPrefix(src, "(def zz1 5)") || strings.HasPrefix(src, "//via:")
 }
 
 // battery is the fixed sequence of follow-up evaluations.
